@@ -1,6 +1,6 @@
 ------------------------------- MODULE MC_Fri -------------------------------
 EXTENDS Fri, Json
-CONSTANTS Cfgs, Queries, PowBits, PointModes, Faults
+CONSTANTS Cfgs, Queries, PowBits, PointModes, Faults, Caps
 B12 == {1, 2}
 A13 == {1, 2, 3}
 A12 == {1, 2}
@@ -8,6 +8,9 @@ F01 == {0, 1}
 F02 == {0, 1, 2}
 Q1 == {1}
 Q12 == {1, 2}
+Cap0 == {0}
+Cap03 == {0, 3}
+Cap0123 == {0, 1, 2, 3}
 Pow0 == {0}
 Pow02 == {0, 2}
 PmQ == {"shared", "distinct"}
@@ -27,13 +30,17 @@ FaultJson(k) ==
       [] k = "pow_witness" -> [kind |-> k, which |-> "query"]
       [] k = "input_commitment" -> [kind |-> k, batch |-> 0, word |-> 2]
       [] k = "log_arity" -> [kind |-> k, step |-> 0]
-Case(cfg, q, pw, pm, k) ==
+Case(cfg, q, pw, pm, k, cap) ==
     [spec |-> "Fri", cfg |-> cfg, log_blowup |-> lb, num_queries |-> q, log_final_poly_len |-> lf, max_log_arity |-> la,
-     pow_bits |-> pw, query_pow_bits |-> pw,
+     pow_bits |-> pw, query_pow_bits |-> pw, cap_height |-> cap,
      batches |-> [j \in 1..Len(batches) |-> [mats |-> [i \in 1..Len(batches[j]) |-> [log_h |-> batches[j][i], w |-> Widths[i]]], points |-> pm]],
      fault |-> FaultJson(k),
-     model |-> [arities |-> arities, refused |-> Refused, same_index_bits |-> (shiftC = shiftN), fold_phases |-> Len(arities)]]
+     model |-> [arities |-> arities, refused |-> Refused, same_index_bits |-> (shiftC = shiftN), fold_phases |-> Len(arities),
+               roots_input |-> RootsInput(cap), roots_commit |-> RootsCommit(cap)]]
+\* faults that touch a commitment or a Merkle opening are replayed for every cap height; the others with the root as cap
+CapFaults == {"none", "commit_phase_commit", "query_merkle", "input_commitment", "query_opened_row", "query_sibling"}
 Emit == phase = "done" =>
-    \A cfg \in Cfgs : \A q \in Queries : \A pw \in PowBits : \A pm \in PointModes : \A k \in Faults :
-        PrintT(<<"REPLAY", ToJson(Case(cfg, q, pw, pm, k))>>)
+    \A cfg \in Cfgs : \A q \in Queries : \A pw \in PowBits : \A pm \in PointModes : \A k \in Faults : \A cap \in Caps :
+        (cap = 0 \/ (k \in CapFaults /\ pm = "shared" /\ pw = 0)) => PrintT(<<"REPLAY", ToJson(Case(cfg, q, pw, pm, k, cap))>>)
+CapsAccounted == \A cap \in Caps : CapBitsAccounted(cap)
 =============================================================================
